@@ -569,6 +569,12 @@ def build_cases(tier, seed):
             two = (not quick) and short and len(cs) <= 1
             add('B', form=f, maxcuts=2 if two else 1, geos=geometries(b, [None], ('min', 'min1')), ops=('read',))
 
+    # ---- B (targeted 2-cuts): a tiny transport item lying wholly INSIDE a delimiter, between two long ones -----------
+    for b in bnds:
+        for cs in ((sym.a * (len(b) + 6), sym.a * (len(b) + 7)), (sym.a * (2 * len(b) + 9), sym.json)):
+            f = mkform(sym, b, cs, (1, 2))
+            add('B', form=f, inside_delims=True, maxcuts=0, geos=geometries(b, [None], ('min', 'min1', None)), ops=('read',))
+
     # ---- C: per-part consumption tuples ----------------------------------------------------------
     for b in bnds:
         short = len(b) <= 2
@@ -770,7 +776,18 @@ def case_B(case, rep):
     selfcheck_form(f, body)
     exp = expected(f['parts'], case['ops'], {}, f['style'])
     n = len(body)
+    if case.get('inside_delims'):
+        delim = b'\r\n--' + f['boundary']
+        p = body.find(delim)
+        while p >= 0:
+            for i in range(1, len(delim)):
+                for j in range(1, len(delim) - i + 1):
+                    rep.state()
+                    for kind, chunk, _ in case['geos']:
+                        run_valid(rep, 'B', f, (kind, chunk, ('c', (p + i, p + i + j))), case['ops'], {}, body, exp)
+            p = body.find(delim, p + 1)
     for k in range(1, case['maxcuts'] + 1):
+
         for cuts in itertools.combinations(range(1, n), k):
             rep.state()
             for kind, chunk, _ in case['geos']:
@@ -1145,6 +1162,8 @@ def weight(case):
         return len(case['geos'])
     n = len(form_body(case['form'])) if 'form' in case else 1
     if p == 'B':
+        if case.get('inside_delims'):
+            return len(case['geos']) * 3 * (len(case['form']['boundary']) + 4) ** 2
         return len(case['geos']) * (n if case['maxcuts'] == 1 else n * n // 2)
     if p == 'C':
         return len(case['geos']) * 7 ** case['n']
